@@ -182,7 +182,8 @@ func (e *ExecutorEngine) executeSubscription(buf *graphql.EngineResultWriter, id
 
 func (e *ExecutorEngine) handleNonSubscriptionOperation(ctx context.Context, id string, executor Executor, eventHandler EventHandler) {
 	defer func() {
-		e.subCancellations.Cancel(id)
+		// the id is not released here: that has happened before the terminal message was written,
+		// and by now the client may have started another operation under the same id
 		err := e.executorPool.Put(executor)
 		if err != nil {
 			e.logger.Error("subscription.Handle.handleNonSubscriptionOperation()",
